@@ -18,7 +18,7 @@ import (
 // gen: harness/profgen extracts the control skeletons of sdf/poly.go and sdf/bezier.go
 // (nextVertex, prevVertex, the createArcs / smoothVertices loops, fixups, the endpoint/midpoint
 // loop of Bezier.Polygon) into coq/Generated/ProfSkel.v; coq/Sdf/ProfEq.v proves them equal to the model.
-func main() { Main("C17", check, profgen.Gen) }
+func main() { Main("C17", check, profgen.Gen, stateGen) }
 
 const imp = "From Sdfx Require Import Num.Ops Num.FInst Sdf.Build Sdf.Bezier Sdf.C17Corr.\nOpen Scope float_scope."
 const imph = "From Sdfx Require Import Num.Ops Num.FInst Sdf.Build Sdf.Bezier Sdf.C17Corr Sdf.C17Hist.\nOpen Scope float_scope."
@@ -181,6 +181,9 @@ func check(c *Ctx, r *Report) error {
 		genBezier(c, rng, x)
 		genPolyHist(c, rng, x)
 		genBezHist(c, rng, x)
+		// coordinate regimes (regimes.go); generated last so that the cases above do not depend on them
+		genBezierRegimes(c, rng, x)
+		genPolyRegimes(c, rng, x)
 	}
 
 	for _, cs := range []*Cases{x.cp, x.cn, x.cb, x.chp, x.chb} {
@@ -192,14 +195,19 @@ func check(c *Ctx, r *Report) error {
 	r.Coverage["bezier_vertices_checked"] = x.st.verts
 	r.Coverage["calls_after_the_first_on_the_same_builder_value"] = x.calls
 	r.Coverage["bezier_last_vertex_equal_only_within_rounding"] = x.st.lastInexact
-	r.Rule = "polygon builders: three-vertex corners A, V.Smooth(r,n)|V.Chamfer(s), B with interior angles 1..179 degrees (plus 0.1/179.9), both turning directions, edges long / either one shorter than the tangent distance / on the borderline, radii from 1e-6 of the edge to too large, facets 1..16, random and axis-aligned dyadic placement; two-vertex arcs with radius/chord from the exact semicircle limit (all chord directions) to 100, both signs, facets 1..16, chords longer than the diameter (model comparison only); Rel/Polar mixes open/closed/reversed incl. the panicking and erroneous ones; polygons with 2..6 arc segments (stadiums, lenses, scalloped rings, arcs late in the list, up to 40 facets: every arc vertex must be preceded by its facets-1 circle points, vertex count exact); closed and open polygons mixing smoothed, chamfered, arc and plain vertices (adjacent fillets, arcs into the first vertex); zero radius/facet no-ops; Nagon 0..64 sides. Bezier: spans of degree 1..4 from Add/Mid/HandleFwd/HandleRev/Handle, open/closed, 1..6 spans, repeated end points (point spans: leading, inner, trailing), closed curves whose first/last Mid control point sits on (or within 1e-9 of) the first vertex (teardrops, closing quadratic/cubic/quartic), loops and cusps (recursion limit), dyadic-exact regime (vertices must equal the rational de Casteljau point EXACTLY) and rounding regime (1e-9 of the coordinate scale), random / all-low / all-high perturbation draws, malformed curves (error / panic outcomes). HISTORIES: every polygon and Bezier value above is rendered again (Vertices() three times; Polygon() twice with the perturbation source restarted, every third one also Mesh2D()): the later answers must repeat the first bit for bit, polygons handed out earlier must be unchanged at the end; explicit history strata compared call by call with the model run as a state machine (coq/Sdf/C17Hist.v): polygons given in 1..3 stages with Vertices() after each (corner whose fillet vertex is first the last vertex, arc chains, Rel/Polar across a render, mixed rings open / closed from the start), Close() and Reverse() one at a time after a render, Mesh2D() in between (bounding box = that of the polyline); Bezier values with handles rendered 3..5 times (fresh and restarted draws, Mesh2D()), open curves given in stages (a stage may end on a control point), Close() after a render, vertices added behind the closing point, dyadic-exact curves in stages, two values alive and rendered alternately, builder and Polygon() panics followed by further use; one-shot oracles applied to every call whose history is equivalent to a one-shot specification. non-trivial = polygon with >= 2 vertices, n-gon with >= 3 sides, bezier that produced >= 2 vertices, history with >= 2 calls; distinct by exact input bits."
+	r.Coverage["bezier_max_vertex_error_in_units_of_3^n_2^-53_max_control_coordinate"] = math.Round(x.st.maxRound*1000) / 1000
+	r.Coverage["bezier_vertex_rounding_tolerance_in_the_same_units"] = roundK
+	r.Coverage["bezier_span_axes_where_Set_may_drop_a_coefficient"] = x.st.dropAxes
+	r.Coverage["bezier_spans_that_may_be_skipped_as_points"] = x.st.optional
+	r.Rule = "polygon builders: three-vertex corners A, V.Smooth(r,n)|V.Chamfer(s), B with interior angles 1..179 degrees (plus 0.1/179.9), both turning directions, edges long / either one shorter than the tangent distance / on the borderline, radii from 1e-6 of the edge to too large, facets 1..16, random and axis-aligned dyadic placement; two-vertex arcs with radius/chord from the exact semicircle limit (all chord directions) to 100, both signs, facets 1..16, chords longer than the diameter (model comparison only); Rel/Polar mixes open/closed/reversed incl. the panicking and erroneous ones; polygons with 2..6 arc segments (stadiums, lenses, scalloped rings, arcs late in the list, up to 40 facets: every arc vertex must be preceded by its facets-1 circle points, vertex count exact); closed and open polygons mixing smoothed, chamfered, arc and plain vertices (adjacent fillets, arcs into the first vertex); zero radius/facet no-ops; Nagon 0..64 sides. Bezier: spans of degree 1..4 from Add/Mid/HandleFwd/HandleRev/Handle, open/closed, 1..6 spans, repeated end points (point spans: leading, inner, trailing), closed curves whose first/last Mid control point sits on (or within 1e-9 of) the first vertex (teardrops, closing quadratic/cubic/quartic), loops and cusps (recursion limit), dyadic-exact regime (vertices must equal the rational de Casteljau point EXACTLY) and rounding regime (1e-9 of the coordinate scale), random / all-low / all-high perturbation draws, malformed curves (error / panic outcomes). HISTORIES: every polygon and Bezier value above is rendered again (Vertices() three times; Polygon() twice with the perturbation source restarted, every third one also Mesh2D()): the later answers must repeat the first bit for bit, polygons handed out earlier must be unchanged at the end; explicit history strata compared call by call with the model run as a state machine (coq/Sdf/C17Hist.v): polygons given in 1..3 stages with Vertices() after each (corner whose fillet vertex is first the last vertex, arc chains, Rel/Polar across a render, mixed rings open / closed from the start), Close() and Reverse() one at a time after a render, Mesh2D() in between (bounding box = that of the polyline); Bezier values with handles rendered 3..5 times (fresh and restarted draws, Mesh2D()), open curves given in stages (a stage may end on a control point), Close() after a render, vertices added behind the closing point, dyadic-exact curves in stages, two values alive and rendered alternately, builder and Polygon() panics followed by further use; one-shot oracles applied to every call whose history is equivalent to a one-shot specification. COORDINATE REGIMES (regimes.go), same oracles and model comparison: Bezier curves (single spans of degree 1..4, several spans open / closed by a last Mid(), handles) FAR FROM THE ORIGIN - extent/offset from 3e-6 down to 3e-13 in every decade plus 3e-13..1e-16, on x only (shallow long curve), on y only, on both (small curve), offsets 1e3..1e10 and powers of two - ABSOLUTELY TINY / HUGE (ordinary and dyadic-exact curves times 2^-500 .. 2^500), STARTING ON OR NEXT TO AN AXIS (start coordinate 1e-6..1e-15 of the extent or 0: the constant coefficient is the small one), NEARLY OF LOWER DEGREE (degree-elevated spans with one control point moved by 1e-6..1e-15 of the extent: the leading coefficient is the small one), and closed curves whose last end point stops 1e-4..1e-13 short of the first vertex (closing straight span required above 1e-9); polygons: fillet / chamfer corners, arcs and rings with arcs / mixed markings at radius/offset 1e-3..1e-10 (offset on x, on y, on both) and scaled by 2^-300 .. 2^300. Bezier vertices are judged per axis against the EXACT rational de Casteljau point with tolerance = 16 3^n 2^-53 max|control coordinate of the span on that axis| (float64 rounding; n = degree; measured maximum about 1 of these units, reported in the coverage) + the monomial coefficients of that axis below 1e-12 of their absolute sum (those Set may drop); a span all of whose non-constant coefficients are below 1e-12 of the sum on both axes may be skipped or not. non-trivial = polygon with >= 2 vertices, n-gon with >= 3 sides, bezier that produced >= 2 vertices, history with >= 2 calls; distinct by exact input bits."
 	r.Trusted = append(r.Trusted,
 		"hand model coq/Sdf/Build.v, coq/Sdf/Bezier.v tied by differential execution at FOps on every run (bit-exact expected, 1e-12 relative tolerated, counted separately)",
 		"control skeletons (Polygon.nextVertex/prevVertex, the createArcs and smoothVertices loops, fixups, the endpoint/midpoint loop of Bezier.Polygon) translated from the Go AST by harness/profgen on every run and proved equal to the model (coq/Sdf/ProfEq.v, theorems C17_SKEL_*); the idiom recognition of the two fixed-point loops and the `for cond {body}` iteration schema are part of the translator",
 		"Coq port of Go math.Sin/Cos/Tan/Acos/Sqrt/Abs/Max (coq/Num/GoMath.v, checked by property GOMATH)",
 		"hook sdf.VerifC17SetRand: the sampler's random draws are supplied and recorded by the harness (math/rand.Float64 = masked Int63 / 2^53, self-tested each run)")
 	r.Assumptions = append(r.Assumptions,
-		"theorems are over the reals; float64 rounding is measured on every run (oracle tolerances 1e-9 r, exact in the dyadic regime), not proved",
+		"theorems are over the reals; float64 rounding is measured on every run (oracle tolerances 1e-9 r for fillets and arcs, exact in the dyadic regime; Bezier: 16 3^n 2^-53 of the largest control coordinate per axis, i.e. for a curve of extent E at offset O from the origin 16 3^n 1.1e-16 O/E of its extent - a quartic is resolved to 1.4e-7 of its extent at E/O = 1e-6, 1.4e-4 at 1e-9, 0.14 at 1e-12), not proved",
+		"where the Bezier claim stops: E/O = 1e-12 per axis - not the float64 resolution (about 1e-15) but BezierPolynomial.Set's relative epsilon: a monomial coefficient below 1e-12 of the coefficient sum (whose constant term is the start coordinate) is dropped, so below that ratio the axis collapses to the start coordinate (vertices within 4e-12 O of the curve, the end vertex included), a span below it on both axes is skipped as a point and a whole curve below it yields no vertices; above it a coefficient is dropped only where it is itself below 1e-12 of the sum (a curve nearly of lower degree, a start next to an axis: the curve moves by less than that coefficient) and otherwise the vertices are on the curve and end at the end control points up to the rounding stated above",
 		"claim class: radius > 0, facets >= 1, distinct non-collinear corner points; arc chord <= 2|radius|; first polygon vertex absolute; bezier spans of at most 5 control points; BezierPolynomial.Set zeroes coefficients below 1e-12 of the coefficient sum (stated in the theorems)")
 	return nil
 }
